@@ -15,7 +15,7 @@ CLAIMED = {
          "every voted handler passes VerifyProposal's success edge before any state write; VerifyProposal contains the proposer/sequence/epoch/threshold/aggregate facts on every success path; the mark count compared with the threshold is tied to the keys verified; the signed document binds method, chain, proposer, sequence, epoch and every payload field; Threshold() has the ceil(2(n+1)/3) shape; voter records are created only after the new vote key was compared with the records of every status (two records never share a key, so one signature cannot take two seats)",
          "BLS soundness, arithmetic of the threshold for all n, SDK rollback"),
  "C02": ("who-may-write over collections call sites + call-graph callers + must-pass facts",
-         "the sequence is written only by SetProposalSeq/genesis, called only by voted handlers, exactly once per success path with VerifyProposal's sequence + 1, paired with UpdateRandao(req); the accepted flag is flipped only after every guard; no package-level state is written from consensus code",
+         "the sequence is written only by SetProposalSeq/genesis, called only by voted handlers, exactly once per success path with VerifyProposal's sequence + 1, paired with UpdateRandao(req); the accepted flag is flipped only after every guard; no package-level state is written from consensus code; the sign document of every voted message covers each field its handler acts on (C01/R4)",
          "rollback itself (SDK), cross-chain non-acceptance (crypto)"),
  "C03": ("must-pass guard facts and argument provenance in VerifyDeposit / NewDeposits (SSA)",
          "all deposit checks lie on every success path with the same txid/header/script/address objects; mark-before-next inside the batch loop; tx sizes > 64 enforced before verification; tax computed as value/10000*rate with min(cap) and subtracted from the credited amount; every parameter setting the module accepts (execution-layer updates and genesis validation) keeps the rate below 100%",
@@ -30,7 +30,7 @@ CLAIMED = {
          "every runtime store to DepositTaxRate/MinDepositAmount/ConfirmationNumber is dominated by the bound on the very value stored (rate < 10000, amount > 1000, number >= 1); no other runtime writer; tax divisor equals the rate bound and division comes first; every parameter store fed from a request element is reached under the same request-dependent guards as the other stores fed from that element (an out-of-range request is ignored as a whole)",
          "the arithmetic consequence for every 64-bit value; genesis configuration"),
  "C06": ("call-graph who-may-call + SSA nonce/queue pop-shape analysis (value graph of the nonce, counter identity of index and re-slice) + must-pass facts",
-         "the dequeue functions are reachable only via Dequeue/VerifyDequeue (tx context: NewEthBlock only); every emitted system tx is paired with nonce+1 and the stored nonce is Peek + emits; lists are consumed F[n] for n=0.. under len/cap bounds and re-sliced by the same n; queue and nonce are stored on every success path that emitted; block hashes are stored at tip+1.. with start == tip+1 and have no other writer; VerifyDequeue byte-compares the two dequeued lists in order and requires the declared count to reach zero, and in NewEthBlock it precedes the processing of the payload's own requests; other queue writers only append at the tail; the sweep of matured unlocks collects every entry it visits, in walk order (C15/R2)",
+         "the dequeue functions are reachable only via Dequeue/VerifyDequeue (tx context: NewEthBlock only); every emitted system tx is paired with nonce+1 and the stored nonce is Peek + emits; lists are consumed F[n] for n=0.. under len/cap bounds and re-sliced by the same n; queue and nonce are stored on every success path that emitted; block hashes are stored at tip+1.. with start == tip+1 and have no other writer; VerifyDequeue byte-compares the two dequeued lists in order and requires the declared count to reach zero, and in NewEthBlock it precedes the processing of the payload's own requests; other queue writers only append at the tail; the sweep of matured unlocks collects every entry it visits, in walk order (C15/R2); a claim queues exactly what the record holds and clears it before the next request (C12/R3)",
          "behaviour across abandoned proposal rounds and restarts (SDK state branching), numeric adequacy of the caps"),
  "C07": ("call-graph reachability to nondeterminism sources with a positive control + map-range loop-body effect analysis + process-local-state rules",
          "no time/rand/env/goroutine/channel/select reachable from tx, block-hook, ante or genesis code; every map range there is order-insensitive (no store access at all in gas-metered context; key-derived writes and order-free result in block context); no package-level or keeper-reachable mutable state; only exact IEEE float operations",
@@ -51,13 +51,13 @@ CLAIMED = {
          "the block reward moved into distribution equals what leaves the grant and is min(remaining, halved reward); each share is floor(pool x previous-block power / total) with round-down operations only, the same value is credited to the validator and subtracted from the remainder that is stored back; claim queues the accrued amounts read before the reset and stores record and queue",
          "the emission numbers, proportionality beyond rounding direction, non-negativity over histories"),
  "C13": ("validator-status typestate (current and as-loaded) at every ranking/locking-index effect site + path searches for remove-before-change + positive-power guard facts",
-         "ranking inserts use the record's current power, only for Pending/Active records and only under power > 0; power changes and status writes leaving {Pending,Active} of possibly-ranked records are preceded by removal of the loaded ranking entry; a removed ranking entry is re-inserted on every path on which the record stays Pending/Active with possibly positive power; the locking index is written only for Pending/Active records and fully cleared when a record leaves them; EndBlocker reports the loaded record's power, mirrors it in ValidatorSet and bounds the walk by MaxValidators; every explicit failure exit of the begin blocker's reward distribution is reached only with a non-empty last commit (a chain started from an exported state has a first block without one); every validator update reported to the consensus engine is paired with the matching ValidatorSet.Set / Remove (directly or in a helper that always makes the call)",
+         "ranking inserts use the record's current power, only for Pending/Active records and only under power > 0; power changes and status writes leaving {Pending,Active} of possibly-ranked records are preceded by removal of the loaded ranking entry; a removed ranking entry is re-inserted on every path on which the record stays Pending/Active with possibly positive power; the locking index is written only for Pending/Active records and fully cleared when a record leaves them; EndBlocker reports the loaded record's power, mirrors it in ValidatorSet and bounds the walk by MaxValidators; every explicit failure exit of the begin blocker's reward distribution is reached only with a non-empty last commit (a chain started from an exported state has a first block without one); every validator update reported to the consensus engine is paired with the matching ValidatorSet.Set / Remove (directly or in a helper that always makes the call); every write of the power ranking in production code is one of the examined sites, in a function holding the validator record, and every removed key is Join(record.Power, address) of such a record",
          "top-K optimality over histories, ties, total-power overflow, store errors"),
  "C14": ("enum typestate over Validator.Status in every locking function + must-pass guard facts at transitions",
-         "the status transition relation equals the allowed one (nothing leaves Tombstoned; Inactive only to Tombstoned); unjail only after the jail time with all thresholds met; jail only under the missed-blocks guard on the stored counter (incremented or not by this block, never a value that may come from the window reset) with power 0, jail time and downtime slash; only Active validators are counted; the signing window is reset on (re)activation or jail; evidence is ignored only when both age limits are exceeded, and evidence of any kind older than both is ignored (the accused validator is loaded only past a not-older edge); locks never touch dead validators",
+         "the status transition relation equals the allowed one (nothing leaves Tombstoned; Inactive only to Tombstoned); unjail only after the jail time with all thresholds met; jail only under the missed-blocks guard on the stored counter (incremented or not by this block, never a value that may come from the window reset) with power 0, jail time and downtime slash; only Active validators are counted; the signing window is reset on (re)activation or jail; evidence is ignored only when both age limits are exceeded, and evidence of any kind older than both is ignored (the accused validator is loaded only past a not-older edge); locks never touch dead validators; unexpired evidence always ends in the Tombstoned write unless the record was Tombstoned when loaded",
          "window arithmetic across boundaries, exactly-once over time beyond the typestate argument"),
  "C15": ("phi-edge provenance of the maturity key + typestate/effect-site checks on the exiting branch + rendered-value checks of the sweep + interleaving search over read-modify-write pairs (through helpers)",
-         "maturity = block time + exit delay exactly when status is Inactive/Tombstoned or the remainder falls below the threshold, else + unlock delay; the entry written is the stored entry for that instant extended by this unlock; exiting zeroes power, moves to Inactive, clears the locking index and never re-ranks; the sweep covers (-inf, block time], removes every visited key, appends every visited unlock once in order and stores the queue; no two read-modify-write sequences on one keeper map with different key expressions are interleaved (lost update)",
+         "maturity = block time + exit delay exactly when status is Inactive/Tombstoned or the remainder falls below the threshold, else + unlock delay; the entry written is the stored entry for that instant extended by this unlock; exiting zeroes power, moves to Inactive, clears the locking index and never re-ranks; the sweep covers (-inf, block time], removes every visited key, appends every visited unlock once in order and stores the queue; no two read-modify-write sequences on one keeper map with different key expressions are interleaved (lost update); the end blocker evicts every member of the last set that is not re-elected, whatever its status (C13/R4)",
          "time arithmetic, delivery caps over histories"),
  "C16": ("must-pass proof facts before any write in NewVoter + voter-status typestate with queue pairing + relational guard on the remaining-member count + election path searches",
          "a voter joins only after both proofs over the same registration sign doc bound to chain/epoch/proposer, with matching key hash and PENDING status; status transitions are the allowed ones and each boarding write is paired with one queue append; a removal is queued only if the remaining count stays >= 1; an election is skipped only within the period with an accepted proposer / no or unexpired timeout, and started only when the period elapsed or a configured timeout expired unaccepted; every election path increments the epoch once, stores the relayer, and replaces/swaps the proposer with a voter that leaves the voter list; applied queues are cleared and stored; a voter record is created only when its address is absent and after a branch on a lookup that receives the new vote key and reads the voter records, comparing records of every status (distinct members); the new record carries the height of its registration (NewVoter's proofs are bound to it); genesis import refuses a proposer that is also listed among the voters",
@@ -66,7 +66,7 @@ CLAIMED = {
          "for each key type and version the address builder and the script verifier derive the witness program / data script by the same recipe over the same argument roles; verifier literals match the address kind; v1 is ECDSA-only on both sides and deposit verification does not delegate to a helper with a different key matrix; the query dispatches versions like verification; DecodeBtcAddress passes network, IsForNet, p2pk rejection and PayToAddrScript",
          "equivalence with btcd on all strings (library behaviour)"),
  "C18": ("coverage analysis of keeper collections and GenesisState fields over Init/ExportGenesis (types + store call sites) + guard facts on derived-index rebuilds + abstract evaluation (known shapes, integer intervals) of import-side validators against runtime record writers + per-status path search to import panics",
-         "every collection is exported and imported or is a derived index rebuilt on import; every GenesisState field is assigned on export and consumed on import; derived indices obey the runtime guards (ranked states, positive power, Active-only validator set, queue by voter status); the exported validator set is the recorded ValidatorSet with the validators' keys; every record the running chain builds with statically known field shapes passes the Validate method run on import; no named status value leads to a status-decided panic in code run on import; for every record the chain modifies field by field at run time, Validate (and the helpers it hands the record to) has no failure branch on a modified integer field that a storable value satisfies (interval evaluation against the guards dominating the stores); voter records are created only with an unused vote key (import refuses duplicates); the begin blocker cannot fail on the first block after import (no last commit); the order of the (not exported) voter queue is not copied into the persistent voter list of the group unless canonically ordered first",
+         "every collection is exported and imported or is a derived index rebuilt on import; every GenesisState field is assigned on export and consumed on import; derived indices obey the runtime guards (ranked states, positive power, Active-only validator set, queue by voter status); the exported validator set is the recorded ValidatorSet with the validators' keys; every record the running chain builds with statically known field shapes passes the Validate method run on import; no named status value leads to a status-decided panic in code run on import; for every record the chain modifies field by field at run time, Validate (and the helpers it hands the record to) has no failure branch on a modified integer field that a storable value satisfies (interval evaluation against the guards dominating the stores); voter records are created only with an unused vote key (import refuses duplicates); the begin blocker cannot fail on the first block after import (no last commit); the order of the (not exported) voter queue is not copied into the persistent voter list of the group unless canonically ordered first; the exported block-hash window starts at the tip, descends by one and its loop bound does not exclude height 0; indices rebuilt by the locking genesis obey C13/R1,R3",
          "equality of two exports, query equivalence (runtime)"),
  "C19": ("reachability from errgroup closures and block hooks + must-pass nil/length guard facts + reviewed table of explicit block-hook failures tied to the C13/C16 invariants + SSA referrer analysis of every error result (errcheck-like, exact exemption table) + failure-branch path search for state writes",
          "outside the framework's panic recovery: the payload nil guard precedes both verification goroutines, every index/slice of proposed data in VerifyDequeue is dominated by its length guard, no unchecked type assertion, explicit panic or dereference of a possibly-nil local pointer is reachable from a goroutine; nothing reachable from the ante handler writes a store (its writes would survive a failing message); the explicit failure exits of begin/end-of-block code are exactly the reviewed ones and the invariants excluding them hold (incl. the zero-power exit needing a non-empty last commit); no process-local state survives a failed tx; no error result is discarded in hand-written production code and no tested state-write failure reaches a success exit",
